@@ -20,6 +20,7 @@
 
 #include "decoder.h"  // for expansion_map
 #include "tokens.h"   // for please_submit_bug_report, etc...
+#include "verif_hooks.h"  // for VERIF_LOOP
 
 
 #define STATIC_ASSERT(condition) \
@@ -217,7 +218,7 @@ static int count(unsigned char needle, const char* haystack, size_t len)
 {
   int n = 0;
   const unsigned char *p = (const unsigned char*)haystack;
-  while (len--)
+  while (len--) VERIF_LOOP(count)
     {
       if (*p++ == needle)
 	++n;
@@ -270,7 +271,7 @@ static bool decode_line(unsigned char line_hi, unsigned char line_lo,
     }
 
   assert(((unsigned const char*)data + orig_len) == (p + len));
-  while (len)
+  while (len) VERIF_LOOP(decode_line)
     {
       unsigned char uch = *p++;
       --len;
@@ -358,7 +359,7 @@ bool decode_little_endian_program(FILE *f, const char *filename,
   enum { BufSize = 1024 };
   static char buf[BufSize];
   long int file_pos;
-  for (;;)
+  for (;;) VERIF_LOOP(decode_le)
     {
       int ch;
       unsigned char hi, lo;
@@ -465,7 +466,7 @@ bool decode_big_endian_program(FILE *f, const char *filename,
   static char buf[1024];
   // Ensure that len can never overflow buf. */
   STATIC_ASSERT(UCHAR_MAX < sizeof(buf));
-  for (;;)
+  for (;;) VERIF_LOOP(decode_be)
     {
       int ch;
       unsigned char hi, lo;
